@@ -1,5 +1,5 @@
 """Which units exist, and what each claimed property covers / does not cover (copied into evidence)."""
-UNITS = ['budget', 'scalars', 'events', 'location', 'live', 'reader']
+UNITS = ['budget', 'scalars', 'events', 'location', 'live', 'reader', 'snippet']
 
 GLOBAL_ASSUMPTIONS = [
     'Verus 0.2026.09.13 and its bundled Z3 are sound; the extractor rewrite rules R0..R17 preserve meaning (DESIGN.md 3.2)',
@@ -102,6 +102,15 @@ PROPS = {
         not_covered=['next_impl document arms (assumed contract); ReadIter::next; equality with per-document deserialization'],
         assumptions=['parser spans are well formed (ordered marks below 4 GiB)'],
     ),
+    'C17': dict(
+        covered=[
+            'sanitize_terminal_snippet_preserve_len: the resulting bytes contain no C0 control other than \\n/\\t, no DEL and no UTF-8 encoded C1 control, have the same length, and every byte that was not an offender (or the second byte of a C1 pair) is unchanged, for strings of any length',
+            'is_terminal_snippet_clean(t) is true exactly when t is terminal-safe in that sense',
+        ],
+        not_covered=['UTF-8 validity of the sanitised bytes (the lossy fallback is therefore not proved dead)',
+                     'window / column cropping (crop_source_window, crop_window_text, crop_line_by_cols): string slicing by char columns, outside the verifier; reflected keys, formatter messages, miette'],
+        assumptions=['String::into_bytes / from_utf8 shims (contracts/snippet.shim.rs)'],
+    ),
     'C08': dict(covered=['budget counters bound the number of observed events/nodes (BudgetEnforcer::observe accept_only_within_limits)'],
                 not_covered=['heap bytes (no allocator model)'], assumptions=[]),
 }
@@ -124,7 +133,7 @@ NOT_APPLICABLE = {
     #'C11': 'not yet under contract in this revision (unit live planned)',
     'C12': 'not yet under contract in this revision (unit quoting planned)',
     #'C16': 'not yet under contract in this revision (unit location planned)',
-    'C17': 'not yet under contract in this revision (unit snippet planned)',
+    #'C17': 'not yet under contract in this revision (unit snippet planned)',
     'C19': 'not yet under contract in this revision (unit robotics planned)',
     'C20': 'not yet under contract in this revision (unit quoting planned)',
 }
